@@ -772,6 +772,15 @@ for _v, _d in [("C09-h-explicitclose", "writers closed explicitly and checked be
 case("C18", "C18-h-repaired", "benign", "processRef repaired: a failed backup returns an error, a failed target lookup other than not-found returns an error (no KNOWN-FINDING, no report)", patch="selftest/variants/C18-h-repaired.diff")
 case("C18", "C18-h-repaired-backup-only", "benign", "processRef with only the backup failure repaired", patch="selftest/variants/C18-h-repaired-backup-only.diff")
 
+# C11.R13 / D23
+case("C11", "C11-D23", "mutant", "historical defect D23 re-introduced: the warnings of regctl's --host parsing log the whole flag value (reg=...,user=...,pass=...)",
+     patch="selftest/regress/D23.diff", expect=[("C11.R13", "newRegClient", "slog argument carries Host.Pass")])
+case("C11", "C11-m-logmap", "mutant", "the parsed key/value map of the --host flag is logged as a whole",
+     edits=[("cmd/regctl/root.go", "\t\t\t\t\tslog.String(\"host\", hKV[\"reg\"]),\n", "\t\t\t\t\tslog.Any(\"host\", hKV),\n")],
+     expect=[("C11.R13", "newRegClient", "slog argument carries Host.Pass")])
+case("C11", "C11-h-loguser", "benign", "the warning also shows the user name of the --host flag (another entry of the parsed map)",
+     edits=[("cmd/regctl/root.go", "\t\t\t\t\tslog.String(\"host\", hKV[\"reg\"]),\n", "\t\t\t\t\tslog.String(\"host\", hKV[\"reg\"]),\n\t\t\t\t\tslog.String(\"user\", hKV[\"user\"]),\n")])
+
 def main():
     bad = 0
     for pid, cases in CASES.items():
